@@ -155,7 +155,7 @@ def do_run(mod, prop, args, seed, scratch, t0):
             else:
                 err.close()
                 if rc != 0:
-                    tail = open(os.path.join(scratch, 'w%03d.err' % i)).read()[-1500:]
+                    tail = open(os.path.join(scratch, 'w%03d.err' % i)).read()[-400:]
                     inconclusive.append('worker %d exited %d: %s' % (i, rc, tail))
         running = still
 
